@@ -72,6 +72,11 @@ impl Fabric {
         Ok(id)
     }
 
+    #[cfg(feature = "verif-hooks")]
+    pub fn verif_host_index(&self, id: HostId) -> Option<usize> {
+        self.hosts.get_index_of(&id)
+    }
+
     pub fn host_ids(&self) -> impl Iterator<Item = HostId> + '_ {
         self.hosts.keys().copied()
     }
